@@ -58,6 +58,7 @@ func main() {
 	verbose := fs.Bool("v", false, "verbose")
 	parH := fs.Int("par", 3, "harness runs executed concurrently")
 	file := fs.String("file", "", "replay file")
+	evdir := fs.String("evdir", "", "evidence directory (default <verif>/evidence)")
 	stepLimit := fs.Int64("step-limit", 0, "instruction budget per path")
 	params := paramFlags{}
 	fs.Var(params, "D", "harness parameter name=value")
@@ -77,6 +78,10 @@ func main() {
 		os.Exit(2)
 	}
 	eng.verbose = *verbose
+	eng.evdir = filepath.Join(*verif, "evidence")
+	if *evdir != "" {
+		eng.evdir = *evdir
+	}
 	eng.solverBin = *solverBin
 	eng.timeoutMs = *timeout
 	eng.seed = seed
@@ -179,6 +184,9 @@ func runCheck(eng *engine, prop, tier string, ps *PropSpec, verif string, seed i
 	validated := 0
 	confirmedViolations := 0
 	replayDir := filepath.Join(verif, "replays")
+	if eng.evdir != filepath.Join(verif, "evidence") {
+		replayDir = filepath.Join(eng.evdir, "replays")
+	}
 	var outMu sync.Mutex
 	sem := make(chan struct{}, eng.parallelHarness)
 	var wgAll sync.WaitGroup
@@ -486,7 +494,7 @@ func writeEvidence(eng *engine, prop, tier string, ps *PropSpec, runs []*harness
 		"wall_s":      wall,
 		"violations":  violations,
 	}
-	if err := writeJSON(filepath.Join(verif, "evidence", prop+".json"), ev); err != nil {
+	if err := writeJSON(filepath.Join(eng.evdir, prop+".json"), ev); err != nil {
 		fmt.Fprintln(os.Stderr, "cannot write evidence:", err)
 	}
 }
